@@ -14,23 +14,12 @@ DESIGN_REF = "DESIGN.md §5 C26"
 
 def obligations(tier):
     obs = []
-    # (a) exact bytes written, concrete layout, symbolic caller bytes
-    if tier == "quick":
-        resp = [(0, 200, 2, 3, 2, 0), (1, 200, 2, 3, 2, 2), (1, 204, 1, 0, 0, 0), (1, 404, 4, 6, 4, 1)]
-        reqs = [(1, 0, 2, 3, 2, 0), (1, 1, 1, 0, 1, 2), (0, 2, 4, 6, 4, 0), (1, 3, 2, 2, 3, 0)]
-    else:
-        resp = [(mi, c, k, v, r, b) for mi in (0, 1) for c in (200, 204, 304, 100, 599) for (k, v, r) in ((1, 0, 0), (2, 3, 2), (4, 6, 4)) for b in (0, 1, 2)]
-        reqs = [(mi, m, k, v, r, b) for mi in (0, 1) for m in range(6) for (k, v, r) in ((1, 0, 1), (2, 3, 2), (4, 6, 4)) for b in (0, 2)]
-    for (mi, c, k, v, r, b) in resp:
-        obs.append(dict(name="head_response_1%d_c%d_k%dv%dr%db%d" % (mi, c, k, v, r, b), harness="C26_head.c", entry="harness_head",
-                    defines=["VP_RESPONSE", "VP_MINOR=%d" % mi, "VP_CODE=%d" % c, "VP_K=%d" % k, "VP_V=%d" % v, "VP_R=%d" % r, "VP_B=%d" % b],
-                    unwind=34, unwindset=["harness_head.0:97"], timeout=600, mem_gb=4,
-                    desc="response head HTTP/1.%d code %d: bytes written == format(caller's strings: name %d, value %d, reason %d symbolic bytes; body %d)" % (mi, c, k, v, r, b)))
-    for (mi, m, k, v, r, b) in reqs:
-        obs.append(dict(name="head_request_1%d_m%d_k%dv%dr%db%d" % (mi, m, k, v, r, b), harness="C26_head.c", entry="harness_head",
-                    defines=["VP_REQUEST", "VP_MINOR=%d" % mi, "VP_METHOD=%d" % m, "VP_K=%d" % k, "VP_V=%d" % v, "VP_R=%d" % r, "VP_B=%d" % b],
-                    unwind=34, unwindset=["harness_head.0:97"], timeout=600, mem_gb=4,
-                    desc="request head HTTP/1.%d method #%d: bytes written == format(caller's strings: name %d, value %d, target %d symbolic bytes; body %d)" % (mi, m, k, v, r, b)))
+    # (a) sequence of writes == format(components)
+    Kh, Vh = (4, 6) if tier == "quick" else (4, 8)
+    for kind in ("RESPONSE", "REQUEST"):
+        obs.append(dict(name="head_" + kind.lower(), harness="C26_head.c", entry="harness_head",
+                    defines=["VP_" + kind, "VP_K=%d" % Kh, "VP_V=%d" % Vh], unwind=24, timeout=900, mem_gb=6,
+                    desc="%s head: writes == start line, caller's header (name<=%d, value<=%d symbolic bytes), automatic headers, CRLF, body (symbolic code/version/method/body length)" % (kind.lower(), Kh, Vh)))
     # (b) acceptance
     K, V = (4, 6) if tier == "quick" else (5, 8)
     for what in ("HEADER", "REASON", "TARGET"):
